@@ -812,4 +812,15 @@ theorem streams_length_run {cfg : Cfg} (hb : cfg.burst ≤ USIZE_MAX) (hr : 0 < 
     simp only [RpcLimit.run] at this
     rw [this, trans_length t]
 
+/-- Every state reachable on a fresh connection with `n` reusable streams satisfies the invariant. -/
+theorem rinv_reach (cfg : Cfg) (hb : cfg.burst ≤ USIZE_MAX) (hr : 0 < cfg.refresh) (kind : Kind) (n : Nat)
+    (evs : List Event) : RInv cfg kind (RpcLimit.run cfg kind (RpcLimit.init cfg n) evs) :=
+  rinv_run hb hr kind evs _ (rinv_init cfg kind n)
+
+/-- … and the window invariants for every window `[a, a+T]`. -/
+theorem winv_reach (cfg : Cfg) (hb : cfg.burst ≤ USIZE_MAX) (hr : 0 < cfg.refresh) (kind : Kind) (n : Nat)
+    (evs : List Event) (a T : Nat) : WInv cfg a (a + T) (RpcLimit.run cfg kind (RpcLimit.init cfg n) evs) :=
+  winv_run hb hr kind (Nat.le_add_right a T) evs _ (rinv_init cfg kind n)
+    (winv_init cfg a (a + T) (Nat.le_add_right a T) n)
+
 end EraVerif.Proofs.RpcLimit
